@@ -1,10 +1,38 @@
 (* C10 - formatting an interface definition preserves it and is idempotent *)
 From Coq Require Import List NArith Lia Bool Arith.
-From VL Require Import Idl Format TypeProofs MemberProofs.
+From VL Require Import Idl Format TypeProofs MemberProofs FormatProofs.
 Import ListNotations.
 
-(* every grammar rendering of a definition parses to that definition (the half of the round
-   trip that does not depend on the formatter) *)
+(* For every layout oracle (so for every width and every threshold rule), the formatter's output
+   for a well-formed definition is a rendering of that definition with its members grouped by
+   kind (typedefs, methods, errors - each kind in its original order), ... *)
+Theorem C10_format_renders : forall decide max i, wf_idl i -> RIdl (reorder i) (fmt_idl decide max i).
+Proof. exact format_renders. Qed.
+Print Assumptions C10_format_renders.
+
+(* ... hence it parses again to the same interface name, docs, per-kind member order, member
+   names and types, ... *)
+Theorem C10_format_parses_back : forall decide max i, wf_idl i ->
+  parse_idl (fmt_idl decide max i) = POk (reorder i).
+Proof. exact format_parses. Qed.
+Print Assumptions C10_format_parses_back.
+
+(* ... and formatting the result again reproduces the text byte for byte. *)
+Theorem C10_format_idempotent : forall decide max i, wf_idl i ->
+  exists j, parse_idl (fmt_idl decide max i) = POk j /\ fmt_idl decide max j = fmt_idl decide max i.
+Proof. exact format_roundtrip. Qed.
+Print Assumptions C10_format_idempotent.
+
+(* the instance with the thresholds of format.rs, every width *)
+Theorem C10_format_src_roundtrip : forall max i, wf_idl i ->
+  exists j, parse_idl (format_src max i) = POk j /\ format_src max j = format_src max i.
+Proof. exact format_src_roundtrip. Qed.
+Print Assumptions C10_format_src_roundtrip.
+
+(* every grammar rendering of a definition parses to that definition *)
 Theorem C10_rendering_parses_back : forall i s, RIdl i s -> parse_idl s = POk i.
 Proof. exact idl_parse. Qed.
 Print Assumptions C10_rendering_parses_back.
+
+(* non-vacuity: a concrete well-formed definition *)
+Check sample_wf.
